@@ -156,6 +156,7 @@ struct AsyncEngine : run::Engine {
 			return p;
 		}
 		gen_async_ops(g, p, nops, false, 1);
+		p.cfg["cred_in_uri"] = g.chance(1, 5) ? 1 : 0;
 		return p;
 	}
 	run::RunResult execute(const run::Plan &p, bool trace) override {
